@@ -476,7 +476,91 @@ fn t_chan_shared(cfg: &Cfg) {
     ledger_final(&led);
 }
 
-// ================================================================ T-event
+// ================================================================ T-event (linearizability against the event model)
+
+use crate::lin::{self, LinOp};
+
+const EV_SET: u32 = 0;
+const EV_RESET: u32 = 1;
+const EV_IS_SET: u32 = 2;
+const EV_POLL: u32 = 3;
+const EV_DROP: u32 = 4;
+
+#[derive(Default)]
+struct History {
+    seq: AtomicU64,
+    ops: StdMutex<Vec<LinOp>>,
+}
+impl History {
+    fn stamp(&self) -> u64 {
+        self.seq.fetch_add(1, SeqCst)
+    }
+    fn record(&self, inv: u64, thread: u32, kind: u32, arg: u32, res: u32) {
+        let ret = self.stamp();
+        self.ops.lock().unwrap().push(LinOp { inv, ret, thread, kind, arg, res });
+    }
+}
+
+/// logs every poll (and the drop) of a wait future as one operation of the history
+struct LoggedWait<F> {
+    fut: Option<F>,
+    hist: Arc<History>,
+    thread: u32,
+    id: u32,
+    completed: bool,
+}
+impl<F: Future<Output = ()>> Future for LoggedWait<F> {
+    type Output = ();
+    fn poll(self: Pin<&mut Self>, cx: &mut Context<'_>) -> Poll<()> {
+        let this = unsafe { self.get_unchecked_mut() };
+        let inv = this.hist.stamp();
+        let fut = unsafe { Pin::new_unchecked(this.fut.as_mut().unwrap()) };
+        let r = fut.poll(cx);
+        this.hist.record(inv, this.thread, EV_POLL, this.id, r.is_ready() as u32);
+        if r.is_ready() {
+            this.completed = true;
+        }
+        r
+    }
+}
+impl<F> Drop for LoggedWait<F> {
+    fn drop(&mut self) {
+        let inv = self.hist.stamp();
+        self.fut = None; // the library's Drop runs here
+        if !self.completed {
+            self.hist.record(inv, self.thread, EV_DROP, self.id, 0);
+        }
+    }
+}
+
+/// sequential reference model: (is_set, registered bitmask, latched bitmask)
+fn event_step(st: &(bool, u32, u32), op: &LinOp) -> Option<(bool, u32, u32)> {
+    let (is_set, reg, lat) = *st;
+    let bit = 1u32 << (op.arg & 31);
+    match op.kind {
+        EV_SET => Some((true, reg, lat | reg)),
+        EV_RESET => Some((false, reg, lat)),
+        EV_IS_SET => {
+            if (op.res != 0) == is_set {
+                Some(*st)
+            } else {
+                None
+            }
+        }
+        EV_POLL => {
+            let ready = if reg & bit == 0 { is_set } else { lat & bit != 0 };
+            if (op.res != 0) != ready {
+                return None;
+            }
+            if ready {
+                Some((is_set, reg & !bit, lat & !bit))
+            } else {
+                Some((is_set, reg | bit, lat))
+            }
+        }
+        _ => Some((is_set, reg & !bit, lat & !bit)),
+    }
+}
 
 fn t_event(cfg: &Cfg) {
     let n = cfg_get(cfg, "threads", 2) as usize;
@@ -484,51 +568,66 @@ fn t_event(cfg: &Cfg) {
     let flips = cfg_get(cfg, "flips", 2) as usize;
     let p_budget = cfg_get(cfg, "p_budget", 0) as u64;
     let ev = Arc::new(GenericManualResetEvent::<M>::new(false));
-    let sets = Arc::new(AtomicU64::new(0));
+    let hist = Arc::new(History::default());
+    let next_wait = Arc::new(AtomicUsize::new(0));
     let mut hs = Vec::new();
-    {
-        let (ev, sets) = (ev.clone(), sets.clone());
+    for t in 0..2u32 {
+        // two threads flip the event; the last thing thread 0 does is a set()
+        let (ev, hist) = (ev.clone(), hist.clone());
         hs.push(thread::spawn(move || {
             for _ in 0..flips {
-                if draw(2) == 0 {
-                    sets.fetch_add(1, SeqCst);
-                    ev.set();
-                } else {
-                    ev.reset();
+                let inv = hist.stamp();
+                match draw(3) {
+                    0 => {
+                        ev.set();
+                        hist.record(inv, t, EV_SET, 0, 0);
+                    }
+                    1 => {
+                        ev.reset();
+                        hist.record(inv, t, EV_RESET, 0, 0);
+                    }
+                    _ => {
+                        let v = ev.is_set();
+                        hist.record(inv, t, EV_IS_SET, 0, v as u32);
+                    }
                 }
                 thread::yield_now();
             }
-            // a last set() with no further reset behind it
-            sets.fetch_add(1, SeqCst);
-            ev.set();
         }));
     }
     for i in 0..n {
-        let (ev, sets) = (ev.clone(), sets.clone());
+        let (ev, hist, next_wait) = (ev.clone(), hist.clone(), next_wait.clone());
         hs.push(thread::spawn(move || {
             for _ in 0..iters {
-                let s0 = sets.load(SeqCst);
-                let budget = if draw(100) < p_budget { Some(draw(4) as u32) } else { None };
-                let done = match budget {
-                    Some(b) => block_on(budgeted(ev.wait(), b)).is_some(),
-                    None => {
-                        block_on(ev.wait());
-                        true
-                    }
-                };
-                // `sets` is bumped before set() is called, so a completion implies a bump since s0
-                // unless the event was already set when the wait started
-                if done && sets.load(SeqCst) == s0 && s0 == 0 {
-                    violation("C14", "completed-without-set", format!("waiter {} completed although set() was never called", i));
-                }
+                let id = next_wait.fetch_add(1, SeqCst) as u32;
+                // every wait carries a budget: nothing guarantees a later set() in this scenario
+                let b = if draw(100) < p_budget { draw(4) as u32 } else { 6 + draw(6) as u32 };
+                let w = LoggedWait { fut: Some(ev.wait()), hist: hist.clone(), thread: 10 + i as u32, id, completed: false };
+                let _ = block_on(budgeted_spin(w, b));
             }
         }));
     }
     for h in hs {
         h.join().unwrap();
     }
-    if !ev.is_set() {
-        violation("C14", "is-set", "the last operation was set() but is_set() is false".into());
+    // a final set() with a waiter that must complete (liveness), then the state is observed
+    let inv = hist.stamp();
+    ev.set();
+    hist.record(inv, 99, EV_SET, 0, 0);
+    let id = next_wait.fetch_add(1, SeqCst) as u32;
+    block_on(LoggedWait { fut: Some(ev.wait()), hist: hist.clone(), thread: 99, id, completed: false });
+    let inv = hist.stamp();
+    let v = ev.is_set();
+    hist.record(inv, 99, EV_IS_SET, 0, v as u32);
+    let ops = hist.ops.lock().unwrap().clone();
+    if ops.len() <= 60 {
+        if let Err(k) = lin::check(&ops, (false, 0u32, 0u32), &event_step) {
+            let mut sorted = ops.clone();
+            sorted.sort_by_key(|o| o.inv);
+            let names = ["set", "reset", "is_set", "poll", "drop"];
+            let txt: Vec<String> = sorted.iter().map(|o| format!("[{}..{}] t{} {}(w{})={}", o.inv, o.ret, o.thread, names[o.kind as usize], o.arg, o.res)).collect();
+            violation("C14", "not-linearizable", format!("the concurrent history of set/reset/is_set/wait polls has no sequential explanation (at most {} of {} operations can be ordered): {}", k, ops.len(), txt.join("; ")));
+        }
     }
     queues_must_be_empty("event", ev.verif_snapshot(&mut |_| false));
 }
@@ -536,7 +635,7 @@ fn t_event(cfg: &Cfg) {
 fn cfg_event(rng: &mut Rng) -> Cfg {
     let mut c = Cfg::new();
     base_cfg(rng, &mut c);
-    c.insert("flips".into(), rng.range(0, 3));
+    c.insert("flips".into(), rng.range(1, 4));
     c
 }
 
